@@ -213,7 +213,7 @@ func c06Sweeps(r *eng.Run) {
 	})
 	// each surrogate (sampled completely at the range edges, every 16th inside) followed by
 	// truncated or malformed second escapes
-	menu := []string{``, `\`, `\u`, `\ud`, `\udc`, `\udc0`, `\udc0g`, `\uDC00`, `\udbff`, `\ud800`, `A`, `\n`, `\"`, `\\udc00`, `x\udc00`, `\U dc00`, `\udc00\udc00`, `😀`, `\x`, `\u{dc00}`, ` \udc00`, `\/`, `é`, "\xff", `\udfff`, ``, `퟿`}
+	menu := []string{``, `\`, `\u`, `\ud`, `\udc`, `\udc0`, `\udc0g`, `\uDC00`, `\udbff`, `\ud800`, U("0041"), `\n`, `\"`, `\\udc00`, `x\udc00`, `\U dc00`, `\udc00\udc00`, U("d83d") + U("de00"), U("D83D") + U("DE00") + U("de00"), `\x`, `\u{dc00}`, ` \udc00`, `\/`, `é`, "\xff", `\udfff`, ``, `퟿`}
 	var units []int
 	for u := 0xD7F0; u <= 0xE010; u++ {
 		units = append(units, u)
@@ -227,7 +227,7 @@ func c06Sweeps(r *eng.Run) {
 	})
 	// growth boundaries: destination (len 0..3, spare 0..8) x escape kinds at each position of a
 	// 3-byte string
-	escs := []string{`\n`, `\"`, `\\`, `\/`, `\b`, `\f`, `\r`, `\t`, `A`, `é`, `€`, `😀`, `\ud800`, "\x7f", "\xc3\xa9", "\xff"}
+	escs := []string{`\n`, `\"`, `\\`, `\/`, `\b`, `\f`, `\r`, `\t`, U("0041"), U("00e9"), U("20ac"), U("d83d") + U("de00"), U("0000"), "é", "😀", `\ud800`, "\x7f", "\xc3\xa9", "\xff"}
 	n := 0
 	for _, e := range escs {
 		for pos := 0; pos <= 3; pos++ {
